@@ -39,16 +39,34 @@ SumSq(x, b, lo, hi, A, Q) ==
                        IN BMul(bx, bx)
   ELSE LET mid == (lo + hi) \div 2 IN BAdd(SumSq(x, b, lo, mid, A, Q), SumSq(x, b, mid+1, hi, A, Q))
 
-\* numerator of delta over DeltaDen
-DeltaNum(x) ==
+\* the same sum for long chains: 1800*N^2 no longer fits TLC's 32-bit integers above about 1000 residues, so
+\* A and Q*SigS are formed as BigNats (AB = A, QB = Q as BigNats); N*(p+n) itself fits up to 46340 residues
+BAbsDiff(a, b) == IF BLe(b, a) THEN BSub(a, b) ELSE BSub(b, a)
+RECURSIVE SumSqBig(_,_,_,_,_,_)
+SumSqBig(x, b, lo, hi, AB, QB) ==
+  IF lo > hi THEN BZero
+  ELSE IF lo = hi THEN LET bx == BAbsDiff(AB, BMulNat(QB, SigS(BlobP(x, lo, b), BlobN(x, lo, b), b)))
+                       IN BMul(bx, bx)
+  ELSE LET mid == (lo + hi) \div 2 IN BAdd(SumSqBig(x, b, lo, mid, AB, QB), SumSqBig(x, b, mid+1, hi, AB, QB))
+LongChain == 1000
+
+\* numerator of delta over DeltaDen: the two evaluations (MC_Patterning checks that they agree)
+DeltaNumSmall(x) ==
   LET N == Len(x)  p == NPos(x)  n == NNeg(x)
       Q == N * (p + n)  A == 1800 * (p - n) * (p - n)
   IN IF N < 5 \/ p + n = 0 THEN BZero
      ELSE BAdd(BMulNat(SumSq(x, 5, 1, N-4, A, Q), Max2(N-5, 1)),
                IF N < 6 THEN BZero ELSE BMulNat(SumSq(x, 6, 1, N-5, A, Q), N-4))
+DeltaNumBig(x) ==
+  LET N == Len(x)  p == NPos(x)  n == NNeg(x)
+      AB == BMulNat(BFromNat((p - n) * (p - n)), 1800)  QB == BFromNat(N * (p + n))
+  IN IF N < 5 \/ p + n = 0 THEN BZero
+     ELSE BAdd(BMulNat(SumSqBig(x, 5, 1, N-4, AB, QB), Max2(N-5, 1)),
+               IF N < 6 THEN BZero ELSE BMulNat(SumSqBig(x, 6, 1, N-5, AB, QB), N-4))
+DeltaNum(x) == IF Len(x) > LongChain THEN DeltaNumBig(x) ELSE DeltaNumSmall(x)
 \* the composition's common denominator (N >= 1, p+n >= 1)
 DeltaDenOf(N, p, n) ==
-  LET S == BFromNat(1800 * N * (p + n)) IN
+  LET S == BMulNat(BFromNat(N * (p + n)), 1800) IN
   BMulNat(BMulNat(BMulSmall(BMul(S, S), 2), Max2(N-4, 1)), Max2(N-5, 1))
 Delta(x) == LET N == Len(x)  p == NPos(x)  n == NNeg(x) IN
             IF p + n = 0 THEN RZero ELSE RMk(1, DeltaNum(x), DeltaDenOf(N, p, n))
